@@ -9,7 +9,9 @@ RULE = ("C06: unbounded, rendezvous, bound-1 and bound-2 channels with three sen
 
 def run(tier):
     feats = ("spawn", "spawn", "join", "yield", "atomic", "chan", "chan", "chan", "mutex", "rand")
-    res = run_prog_check("C06", PROPS, tier, ["c03", "objects:C03", "sync2:C06"], features=feats, n_quick=5000, n_thorough=80000, rule=RULE)
+    res = run_prog_check("C06", PROPS, tier, ["c03", "objects:C03", "sync2:C06"], features=feats, n_quick=3000, n_thorough=60000, rule=RULE,
+                         focus=["chan"],
+                         focus_n=(2500, 50000))
     if isinstance(res, int):
         return res
     ctx, cases, mo, io = res
